@@ -34,7 +34,7 @@ OPS = (['new'] * 4 + ['rewrite'] * 3 + ['append'] * 2 + ['edit', 'consume', 'pla
 
 
 def shards(tier, seed):
-    return split(tier, seed, 1600, 16000, 45, 900)
+    return split(tier, seed, 3200, 160000, 45, 900)
 
 
 def blob_files(blob_dir):
